@@ -65,6 +65,7 @@ class Layer:
         self.default = default
         self.units: dict[int, object] = {}
         self.zero_phys = False  # store zeros (not garbage) for non-data sectors inside allocated units
+        self.override: dict[int, bytes] = {}  # sector -> explicit 512 bytes for data sectors (tuned content)
 
     @property
     def nunits(self) -> int:
@@ -84,6 +85,8 @@ class Layer:
     def read_sector(self, sector: int) -> bytes | None:
         st = self.state(sector)
         if st == D:
+            if self.override and sector in self.override:
+                return self.override[sector]
             return sector_bytes(self.tag, sector, self.kind)
         if st == Z:
             return b"\x00" * SECTOR
@@ -92,6 +95,8 @@ class Layer:
     def phys_sector(self, sector: int) -> bytes:
         """What a writer stores on disk for this sector inside an allocated unit."""
         if self.state(sector) == D:
+            if self.override and sector in self.override:
+                return self.override[sector]
             return sector_bytes(self.tag, sector, self.kind)
         if self.zero_phys:
             return b"\x00" * SECTOR
